@@ -435,6 +435,20 @@ func init() {
 			cfg.PCrash = 0.03
 			cfg.TornP = 0.5
 			cfg.Shadow = 30
+			if r.Bool(0.2) {
+				// long lives before the kill: Bootstrap replays the events in batches
+				// of 100 and processes the signature pool once per batch
+				cfg.Steps = r.Range(200, 380)
+				cfg.PCrash = 0.008
+				cfg.Shadow = 12
+				if cfg.N0 >= 3 && r.Bool(0.6) {
+					// the persistent node 0 lags: it receives other validators' block
+					// signatures before it commits the blocks itself
+					cfg.Straggler = 1
+					cfg.StragglerP = []float64{0.1, 0.2, 0.3}[r.Intn(3)]
+					cfg.StragglerListens = r.Bool(0.5)
+				}
+			}
 			cfg.FairSuffix = r.Bool(0.5)
 			withMembership(cfg, r, 0.3)
 			return cfg
